@@ -138,9 +138,9 @@ def gen_pair(rng, n, style):
         x = [sgn() * _mag(rng, -100, 100) for _ in range(n)]
         y = [sgn() * _mag(rng, -100, 100) for _ in range(n)]
     elif style == "scaled":        # one scale per pair
-        s = 10.0 ** rng.randint(-99, 98)
-        x = [rng.uniform(-8, 8) * s for _ in range(n)]
-        y = [rng.uniform(-8, 8) * s for _ in range(n)]
+        s = 10.0 ** rng.randint(-95, 95)
+        x = [sgn() * rng.uniform(1e-3, 8) * s for _ in range(n)]
+        y = [sgn() * rng.uniform(1e-3, 8) * s for _ in range(n)]
     elif style == "near":          # differences of a few ulps up to 1e-6 relative: the subtraction is exact or nearly so
         x = [sgn() * _mag(rng, -3, 3) for _ in range(n)]
         y = [a * (1.0 + rng.choice([0.0, 2.0 ** -52, 3 * 2.0 ** -52, 1e-12, 1e-6])) for a in x]
